@@ -170,6 +170,25 @@ def gen_topology(rng, malformed=None, big=False):
     topo = dict(comb=comb, gen_pairs=gen_pairs, atomtypes=atomtypes, nonbond=nonbond, macros=macros, flags=flags,
                 types=types, cond_types=cond_types, blocks=blocks, molecules=molecules, malformed=malformed,
                 valid=malformed is None)
+    # dimensions added later, from a derived stream (the other choices of a seed stay what they were)
+    import random as _random
+    extra = _random.Random("c09-extra|%r" % (rng.getstate()[1][:4],))
+    if extra.random() < 0.3:
+        # sections preprocessing must leave alone: type-less ones written with ONE token, others with full parameters
+        blk = extra.choice(blocks)
+        nat = len(blk["atypes"])
+        have = {sec for sec, _ in blk["sections"]}
+        for sec, arity, params in (("virtual_sites2", 3, extra.choice([["1"], ["1", dy(extra)]])),
+                                   ("position_restraints", 1, ["1", dy(extra), dy(extra), dy(extra)]),
+                                   ("settles", 1, ["1", dy(extra), dy(extra)]),
+                                   ("virtual_sites3", 4, ["1", dy(extra), dy(extra)])):
+            if sec not in have and extra.random() < 0.5 and nat >= arity:
+                blk["sections"].append([sec, [[extra.sample(range(nat), arity), params]]])
+    if extra.random() < 0.05 and types["dihedrals"]:
+        # more than 20 terms for one dihedral type (everything that is counted, beyond 20)
+        tkey = extra.choice(types["dihedrals"])[0]
+        for mult in range(extra.randint(21, 24)):
+            types["dihedrals"].append([list(tkey), ["9", dy(extra), dy(extra), str(mult % 6 + 1)]])
     if malformed == "flag-as-parameter":
         topo["flags"] = topo["flags"] + ["FLG"]
         blk = blocks[0]
